@@ -335,6 +335,18 @@ func runC07(c *Ctx) {
 			if hasLoop {
 				// every cycle passes a frame read whose error leads to return
 				exits := false
+				isReadCall := func(y ssa.Instruction) bool {
+					ci, ok := y.(*ssa.Call)
+					if !ok {
+						return false
+					}
+					n := callName(ci)
+					if n == "pkg/dnsutils.ReadRawMsgFromTCP" || n == relTransport+".readMsgUdp" {
+						return true
+					}
+					sc := staticCallee(ci)
+					return sc != nil && ioFns[sc]
+				}
 				eachInstr(target, func(x ssa.Instruction) {
 					ci, ok := x.(*ssa.Call)
 					if !ok {
@@ -353,12 +365,14 @@ func runC07(c *Ctx) {
 						if !ok || ex.Type().String() != "error" {
 							continue
 						}
-						for _, r2 := range referrers(ex) {
-							if bo, ok := r2.(*ssa.BinOp); ok && bo.Op == token.NEQ {
-								for _, r3 := range referrers(bo) {
-									if iff, ok := r3.(*ssa.If); ok {
-										if _, loops := reachFromBlock(iff.Block().Succs[0], func(y ssa.Instruction) bool { return y == x }, nil); !loops {
-											exits = true
+						for _, ev := range withMergingPhis(ex) {
+							for _, r2 := range referrers(ev) {
+								if bo, ok := r2.(*ssa.BinOp); ok && bo.Op == token.NEQ {
+									for _, r3 := range referrers(bo) {
+										if iff, ok := r3.(*ssa.If); ok {
+											if _, loops := reachFromBlock(iff.Block().Succs[0], func(y ssa.Instruction) bool { return y == x }, nil); !loops {
+												exits = true
+											}
 										}
 									}
 								}
@@ -370,7 +384,8 @@ func runC07(c *Ctx) {
 						for _, b := range target.Blocks {
 							for _, s := range b.Succs {
 								if s.Dominates(b) { // back edge b->s
-									if _, skip := reachFromBlock(s, func(y ssa.Instruction) bool { return y == terminator(b) }, func(y ssa.Instruction) bool { return y == x }); skip && s != b {
+									// (alternative reads — `if tcp { readA } else { readB }` — count as one read point)
+									if _, skip := reachFromBlock(s, func(y ssa.Instruction) bool { return y == terminator(b) }, func(y ssa.Instruction) bool { return y == x || isReadCall(y) }); skip && s != b {
 										// some cycle may avoid the read: check precisely that the read dominates the back edge source
 										if !instrDominates(x, terminator(b)) {
 											exits = false
@@ -392,7 +407,7 @@ func runC07(c *Ctx) {
 				case *ssa.Send:
 					tr := p.newTracer()
 					tr.throughParams, tr.throughFields, tr.throughCalls = false, false, false
-					for _, r := range tr.origins(y.Chan) {
+					for _, r := range tr.originsNH(y.Chan) {
 						mk, ok := r.(*ssa.MakeChan)
 						n, isC := int64(0), false
 						if ok {
@@ -1346,19 +1361,21 @@ func checkIOErrorCloses(c *Ctx) map[*ssa.Function]bool {
 				return
 			}
 			good := false
-			for _, r := range referrers(errV) {
-				bo, ok := r.(*ssa.BinOp)
-				if !ok || bo.Op != token.NEQ || !isNilConst(bo.Y) {
-					continue
-				}
-				for _, r2 := range referrers(bo) {
-					iff, ok := r2.(*ssa.If)
-					if !ok {
+			for _, ev := range withMergingPhis(errV) {
+				for _, r := range referrers(ev) {
+					bo, ok := r.(*ssa.BinOp)
+					if !ok || bo.Op != token.NEQ || !isNilConst(bo.Y) {
 						continue
 					}
-					// every path from the error branch to an exit passes the closer
-					if _, leak := reachFromBlock(iff.Block().Succs[0], isExit, isCloser); !leak {
-						good = true
+					for _, r2 := range referrers(bo) {
+						iff, ok := r2.(*ssa.If)
+						if !ok {
+							continue
+						}
+						// every path from the error branch to an exit passes the closer
+						if _, leak := reachFromBlock(iff.Block().Succs[0], isExit, isCloser); !leak {
+							good = true
+						}
 					}
 				}
 			}
